@@ -25,7 +25,12 @@ func init() {
 		return gtPBFail4(seed, 1+int(seed%3), 1+rng.Intn(2), 1+rng.Intn(3), rng.Intn(2) == 1)
 	}})
 	Register(Factory{Name: "gotests/bug_167", Tags: []string{"c02"}, New: func(seed int64, exact bool, rng *rand.Rand) *Sim {
-		return gtBug167(seed, 1+int(seed%3), rng.Intn(3), rng.Intn(3), seed%4 != 3)
+		// at least one put client: only PUTs start replication rounds (NUM_PUT_CLIENTS = 0 is covered by seed%8 == 7)
+		nPut := 1 + rng.Intn(2)
+		if seed%8 == 7 {
+			nPut = 0
+		}
+		return gtBug167(seed, 1+int(seed%3), nPut, rng.Intn(3), seed%4 != 3)
 	}})
 }
 
@@ -190,10 +195,12 @@ func gtBug167(seed int64, nRep, nPut, nGet int, exploreFail bool) *Sim {
 	st.Init("primary", replicas)
 	s := NewSched(seed, st)
 	s.IdleRounds = 6
-	failIDs := map[string]bool{"AReplica.replicaLoop.0": true, "AReplica.sndSyncReqLoop.1": true, "AReplica.sndReplicaReqLoop.1": true, "AReplica.rcvReplicaRespLoop.1": true}
+	// mayFail: crash rarely at the top of the loop (otherwise runs are nothing but crashes), more often in the middle
+	// of a replication round (the interesting crash points: after a send / after a receive)
+	failPct := map[string]int{"AReplica.replicaLoop.0": 2, "AReplica.sndSyncReqLoop.1": 25, "AReplica.sndReplicaReqLoop.1": 25, "AReplica.rcvReplicaRespLoop.1": 25}
 	s.Choice = func(p *Proc, id string, ceiling uint) uint {
-		if failIDs[id] { // mayFail: crash rarely, otherwise runs are nothing but crashes
-			if s.Rng.Intn(100) < 4 {
+		if pct, ok := failPct[id]; ok {
+			if s.Rng.Intn(100) < pct {
 				return 1
 			}
 			return 0
@@ -205,7 +212,7 @@ func gtBug167(seed int64, nRep, nPut, nGet int, exploreFail bool) *Sim {
 			distsys.DefineConstantValue("NUM_REPLICAS", N(nRep)), distsys.DefineConstantValue("NUM_PUT_CLIENTS", N(nPut)),
 			distsys.DefineConstantValue("NUM_GET_CLIENTS", N(nGet)), distsys.DefineConstantValue("EXPLORE_FAIL", B(exploreFail)),
 			distsys.DefineConstantValue("GET_CLIENT_RUN", B(true)), distsys.DefineConstantValue("PUT_CLIENT_RUN", B(true)),
-			distsys.EnsureArchetypeRefParam("net", M(st, "network", 1, gtRFLRead, gtRFLWrite)),          // ReliableFIFOLink
+			distsys.EnsureArchetypeRefParam("net", M(st, "network", 1, gtRFLRead, gtRFLWrite)),           // ReliableFIFOLink
 			distsys.EnsureArchetypeRefParam("fd", M(st, "fd", 1, PlainR, PlainW)),                        // PerfectFD
 			distsys.EnsureArchetypeRefParam("primary", M(st, "primary", 0, gtLeaderRead, gtLeaderWrite)), // LeaderElection
 			distsys.EnsureArchetypeRefParam("netLen", M(st, "network", 1, gtNetLenRead, gtNetLenWrite)),  // NetworkBufferLength
@@ -225,7 +232,7 @@ func gtBug167(seed int64, nRep, nPut, nGet int, exploreFail bool) *Sim {
 	var reps, puts, gets []*Proc
 	for i := 1; i <= nRep; i++ {
 		p := s.Add(N(i), bug167.AReplica, nil, "Replica", append(common(),
-			distsys.EnsureArchetypeRefParam("fs", M(st, "fs", 2, PlainR, PlainW)),                       // FileSystem
+			distsys.EnsureArchetypeRefParam("fs", M(st, "fs", 2, PlainR, PlainW)),                               // FileSystem
 			distsys.EnsureArchetypeRefParam("netEnabled", M(st, "network", 1, gtToggleRead, gtToggleWrite)))...) // NetworkToggle
 		x.wrap(p, nil, nil, nil)
 		reps = append(reps, p)
@@ -265,7 +272,7 @@ func gtBug167(seed int64, nRep, nPut, nGet int, exploreFail bool) *Sim {
 				return ""
 			}
 			failed := strings.Contains(r.After, fmt.Sprintf(`(%d) :> ("failLabel")`, self))
-			reqOff := strings.Contains(r.After, fmt.Sprintf(`(<<%d, 1>>) :> ((("queue") :> (`, self)) && gtLinkDisabled(r.After, self, 1)
+			reqOff := gtLinkDisabled(r.After, self, 1)
 			if failed && reqOff && !gtLinkDisabled(r.Before, self, 1) {
 				return "C02:bug_167:mayFail-after-network-update-loses-first-write"
 			}
